@@ -49,9 +49,10 @@ func (u *Unit) logArr(st *State, field string, vs *Sort) *Term {
 }
 
 // logAppend records one API call.
-func (u *Unit) logAppend(st *State, verb string, obj, namespaced, ns *Term) {
+func (u *Unit) logAppend(st *State, verb string, obj, namespaced, ns *Term, typ *Term) {
 	c := u.c
 	n := u.logLen(st)
+	st.heap["G:typ"] = c.Store(u.logArr(st, "typ", SInt), n, typ)
 	st.heap["G:verb"] = c.Store(u.logArr(st, "verb", SStr), n, c.Str(verb))
 	st.heap["G:obj"] = c.Store(u.logArr(st, "obj", SRef), n, obj)
 	st.heap["G:nsd"] = c.Store(u.logArr(st, "nsd", SBool), n, namespaced)
@@ -69,7 +70,7 @@ func (u *Unit) logHavoc(st *State, guard *Term) {
 	for _, f := range []struct {
 		name string
 		s    *Sort
-	}{{"verb", SStr}, {"obj", SRef}, {"nsd", SBool}, {"ns", SStr}} {
+	}{{"verb", SStr}, {"obj", SRef}, {"nsd", SBool}, {"ns", SStr}, {"typ", SInt}} {
 		prev := u.logArr(st, f.name, f.s)
 		na := c.Fresh("G_"+f.name, prev.Sort)
 		k := c.BoundVar("lk", SInt)
@@ -111,7 +112,8 @@ func (u *Unit) clientCall(fc *frameCtx, name string, sig *types.Signature, args 
 	if !fc.spec {
 		u.checkLogAllowed(fc, pc, name, pos)
 	}
-	u.logAppend(st, verb, obj, namespaced, ns)
+	ftT, _ := u.ifaceFns()
+	u.logAppend(st, verb, obj, namespaced, ns, c.App(ftT, args[objIdx].T))
 	// Reads (re)fill the whole object passed in. Writes send the object; what comes back differs from what was
 	// sent only in the object's metadata (resourceVersion, generation, uid, timestamps ...): spec and status of the
 	// object in memory stay what the caller put there. (On an error the object is left as it was.)
@@ -144,6 +146,11 @@ func (u *Unit) clientCall(fc *frameCtx, name string, sig *types.Signature, args 
 // listNamespace inspects a literal option slice for a namespace restriction.
 func (u *Unit) listNamespace(st *State, pc *Term, opts *Term) (*Term, *Term) {
 	c := u.c
+	if opts.Op == "ite" {
+		a1, a2 := u.listNamespace(st, pc, opts.Args[1])
+		b1, b2 := u.listNamespace(st, pc, opts.Args[2])
+		return c.Ite(opts.Args[0], a1, b1), c.Ite(opts.Args[0], a2, b2)
+	}
 	n, ok := c.SLen(opts).IntVal()
 	if !ok || !n.IsInt64() || n.Int64() > 8 {
 		return c.Fresh("namespaced", SBool), c.Fresh("ns", SStr)
@@ -203,6 +210,8 @@ func logFieldSort(f string) *Sort {
 		return SStr
 	case "obj":
 		return SRef
+	case "typ":
+		return SInt
 	}
 	return SBool
 }
